@@ -68,7 +68,7 @@ namespace gtry {
 		UInt res = (UInt) v;
 		IF (v.sign())
 			res = ~ (UInt)v + 1;
-		return res;
+		return zext(res); // the magnitude is unsigned: it must not be sign extended like its operand when it meets a wider operand
 	}
 	template UInt abs<SInt>(const SInt &v);
 
